@@ -650,3 +650,53 @@ def gen_bitmap(rng, tier):
                 toks.append("swap")
         ops.append("bitmap.hist " + " ".join(toks))
     return ops
+
+
+# ---------------------------------------------------------------- C10 dimension
+def gen_dim(rng, tier):
+    ops = []
+    pts = set()
+    for d in range(1, 10):
+        for dd in (-1, 0, 1):
+            pts.add(max(0, (16 ** d) + dd))
+    pts |= {0, 1, 15, 255, (1 << 32) - 1, 1 << 32, (1 << 32) + 1, (1 << 40), M64}
+    pts = sorted(pts)
+    for r in pts:
+        for c in pts:
+            if rng.random() < (0.5 if tier == "quick" else 1.0):
+                ops.append(f"dim.pack {hx(r)} {hx(c)}")
+    for _ in range(300 if tier == "quick" else 20000):
+        ops.append(f"dim.pack {hx(logu(rng) >> rng.choice([0, 16, 32, 40]))} {hx(logu(rng) >> rng.choice([0, 16, 32, 40]))}")
+    # all 72 width combinations (rows width 0..8, cols width 1..8) with extreme counts
+    for wr in range(0, 9):
+        for wc in range(1, 9):
+            rvals = [0] if wr == 0 else [1 << (8 * (wr - 1)), (1 << (8 * wr)) - 1, rng.getrandbits(8 * wr) | (1 << (8 * (wr - 1)))]
+            cvals = [max(1, 1 << (8 * (wc - 1))), (1 << (8 * wc)) - 1, rng.getrandbits(8 * wc) | (1 << (8 * (wc - 1)))]
+            for r in rvals:
+                for c in cvals:
+                    ops.append(f"dim.pair {hx(r)} {hx(c)}")
+    # matrices
+    n = 150 if tier == "quick" else 3000
+    for _ in range(n):
+        rows = rng.choice([0, 1, 2, 3, 7, 16, 40])
+        cols = rng.choice([1, 2, 3, 8, 9, 17, 255, 256, 257, 300])
+        if rows * cols > 6000:
+            cols = 17
+        w = rng.choice(["0", "0", "1", "2", "3", "4", "5", "6", "7", "8", "f4", "f8"])
+        nrows = rows if rows else 1
+        wb = 1 if w == "0" else 4 if w == "f4" else 8 if w == "f8" else int(w)
+        steps = []
+        for _k in range(rng.randint(4, 25)):
+            r = rng.choice([0, nrows - 1, rng.randrange(nrows)])
+            c = rng.choice([0, cols - 1, rng.randrange(cols)])
+            if w == "0":
+                if rng.random() < 0.3:
+                    steps.append(f"tog:{hx(r)}:{hx(c)}")
+                else:
+                    steps.append(f"set:{hx(r)}:{hx(c)}:{rng.choice([0, 1])}")
+            else:
+                v = rng.choice([0, (1 << (8 * wb)) - 1, rng.getrandbits(8 * wb)])
+                steps.append(f"set:{hx(r)}:{hx(c)}:{hx(v)}")
+        init = rng.choice(["0", "f", "r" + hx(rng.getrandbits(60))])
+        ops.append(f"dim.cells rows={hx(rows)} cols={hx(cols)} w={w} init={init} " + " ".join(steps))
+    return ops
